@@ -122,6 +122,24 @@ def run(ctx):  # noqa: C901, PLR0912
                             if is_mutable_value(n.args[idx]):
                                 mutable.append(decls[-1])
 
+    # a descriptor class can also give ITSELF a mutable default: `default_py_value = X()` inside its __init__, or
+    # super().__init__(.., default_py_value=X()) - then every declaration of that class is a mutable one
+    for q in desc_classes:
+        init = repo.resolve_method(q, '__init__')
+        if init is None or not init.qual.startswith(XS):
+            continue
+        for n in walk_no_nested(init.node):
+            for kind in ('default_py_value', 'implied_py_value'):
+                val = None
+                if isinstance(n, ast.Assign) and isinstance(n.targets[0], ast.Name) and n.targets[0].id == kind:
+                    val = n.value
+                if isinstance(n, ast.Call) and call_name(n) == '__init__':
+                    val = next((k.value for k in n.keywords if k.arg == kind), val)
+                if val is not None and is_mutable_value(val):
+                    d = (q, kind.split('_')[0], val, f'{repo.rel(init.module.path)}:{n.lineno} (set by {init.cls.name}.__init__)')
+                    decls.append(d)
+                    mutable.append(d)
+
     # escapes per (function)
     seen = {}
     for q in desc_classes:
